@@ -1,6 +1,7 @@
 package main
 
 import (
+	"path/filepath"
 	"flag"
 	"fmt"
 	"os"
@@ -27,6 +28,16 @@ func main() {
 	if len(args) == 0 {
 		fmt.Println("usage: govc [flags] verify <funcKey>... | list")
 		os.Exit(2)
+	}
+	{
+		var kfs []KnownFinding
+		if loadJSON(filepath.Join(*verif, "known_findings.json"), &kfs) == nil {
+			for _, k := range kfs {
+				if k.Status != "fixed" {
+					knownFailing[k.Obligation] = true
+				}
+			}
+		}
 	}
 	prog, err := loadProgram(*repo)
 	if err != nil {
